@@ -284,8 +284,11 @@ def trailingBits (v : Int) : Nat := tzFuel v.natAbs v.natAbs
 
 /-! ## `descale<Significand, OutRadix, Precise = true>` -/
 
-/-- `oob(n)` for a non-negative input: `n > numeric_limits<Significand>::max() / OutRadix` -/
-def oob (sigT : IntTy) (outRadix : Nat) (n : Int) : Bool := n > sigT.max / (outRadix : Int)
+/-- `oob(n)` for a non-negative input: `n > numeric_limits<Significand>::max() / descale_headroom_radix`, where the
+headroom radix is `OutRadix` in the loop for negative input exponents and the greater of `OutRadix`, `InRadix` in the
+other (since /repo commit c459b7e; the literal operators enter that loop only with `in_exponent = 0`, where the test
+is never evaluated) -/
+def oob (sigT : IntTy) (headroomRadix : Nat) (n : Int) : Bool := n > sigT.max / (headroomRadix : Int)
 
 /-- the loop of the `InExponent < 0` branch with `Precise = true` (input > 0).
 State: significand, output exponent, `in_exponent`.  Fuel stands for the compiler's
@@ -319,7 +322,7 @@ def descalePos (sigT : IntTy) (outRadix inRadix : Nat) : Nat → Int → Int →
   | 0, _, _, _ => .diverges
   | fuel+1, sig, exp, ie =>
     if ie ≠ 0 ∨ sig % (outRadix : Int) = 0 then
-      if sig % (outRadix : Int) = 0 ∨ oob sigT outRadix sig = true then
+      if sig % (outRadix : Int) = 0 ∨ oob sigT (max outRadix inRadix) sig = true then
         descalePos sigT outRadix inRadix fuel (sig / (outRadix : Int)) (exp + 1) ie
       else descalePos sigT outRadix inRadix fuel (sig * inRadix) exp (ie - 1)
     else .ok (sig, exp)
